@@ -2136,4 +2136,364 @@ theorem ct_kept_reach (p : Program) (cfg : Cfg) (hc : (markAST p cfg).crash = fa
   exact key (path_of_inclReach hr) hct (Path.refl 0) KeptReach.root
 
 
+
+
+/-- more fuel than unmarked nodes changes nothing: the fuel is not a semantic restriction -/
+theorem visit_fuel_succ (p : Program) : ∀ (k : Nat) (M : Marks) (n : Node), unmarked p M < k → n ∈ allNodes p →
+    visit p (k + 1) M n = visit p k M n := by
+  intro k
+  induction k with
+  | zero => intro M n h; omega
+  | succ k ih =>
+    intro M n hk hn
+    rw [visit, visit]
+    by_cases hm : n ∈ M
+    · simp [hm]
+    · simp only [hm, if_false]
+      have hk0 : unmarked p (n :: M) < k := by
+        have := unmarked_cons_lt p hn hm
+        omega
+      have key : ∀ (ns : List Node) (M0 : Marks), unmarked p M0 < k → (∀ x ∈ ns, x ∈ allNodes p) →
+          ns.foldl (visit p (k + 1)) M0 = ns.foldl (visit p k) M0 := by
+        intro ns
+        induction ns with
+        | nil => intro M0 _ _; rfl
+        | cons a as iha =>
+          intro M0 h0 hall
+          simp only [List.foldl_cons]
+          rw [ih M0 a h0 (hall a (List.mem_cons_self))]
+          exact iha _ (Nat.lt_of_le_of_lt (unmarked_mono p (visit_sub p k M0 a)) h0)
+            (fun x hx => hall x (List.mem_cons_of_mem _ hx))
+      exact key (succs p n) (n :: M) hk0 (fun x hx => succs_sub p hx)
+
+theorem visit_fuel_ge (p : Program) (M : Marks) (n : Node) (hn : n ∈ allNodes p) :
+    ∀ d, visit p (fuelN p + d) M n = visit p (fuelN p) M n := by
+  intro d
+  induction d with
+  | zero => rfl
+  | succ d ih =>
+    rw [← ih]
+    exact visit_fuel_succ p (fuelN p + d) M n (Nat.lt_of_lt_of_le (unmarked_lt_fuel p M) (Nat.le_add_right _ _)) hn
+
+
+
+
+/-! ### the trimmed program binds every kept type to the same definitions -/
+
+/-- include marks are renumbered like `Reference.Index`; all other nodes keep their address -/
+def renNode (p : Program) (M : Marks) : Node → Node
+  | .inc f i => .inc f (newIdx (keepFlags p M f) i)
+  | n => n
+
+theorem filter_zipIdx_get {α : Type} (keep : α × Nat → Bool) : ∀ (l : List α) (k i : Nat),
+    ((l.zipIdx k).map keep).getD i false = true →
+    (((l.zipIdx k).filter keep).map (·.1))[(((l.zipIdx k).map keep).take i).count true]? = l[i]? := by
+  intro l
+  induction l with
+  | nil => intro k i h; simp at h
+  | cons x xs ih =>
+    intro k i h
+    simp only [List.zipIdx_cons, List.map_cons] at h ⊢
+    cases i with
+    | zero =>
+      simp only [List.getD_cons_zero] at h
+      simp [h]
+    | succ j =>
+      simp only [List.getD_cons_succ] at h
+      have := ih (k + 1) j h
+      by_cases hk : keep (x, k) = true
+      · simp only [List.filter_cons, hk, if_true, List.map_cons, List.take_succ_cons, List.count_cons_self,
+          List.getElem?_cons_succ]
+        exact this
+      · have hk' : keep (x, k) = false := by simpa using hk
+        simp only [List.filter_cons, hk', Bool.false_eq_true, if_false, List.take_succ_cons, List.getElem?_cons_succ]
+        rw [List.count_cons_of_ne (by simp)]
+        exact this
+
+theorem zipIdx_map_getD {α : Type} (g : α × Nat → Bool) (l : List α) (i : Nat) (h : i < l.length) :
+    (l.zipIdx.map g).getD i false = g (l[i], i) := by
+  simp [List.getD, List.getElem?_map, List.getElem?_zipIdx, List.getElem?_eq_getElem h]
+
+theorem file_trimProg (p : Program) (cfg : Cfg) (f : Nat) :
+    (trimProg p cfg).file f = trimFile p cfg (effMethods p cfg) (markAST p cfg) f (p.file f) := by
+  by_cases hf : f < p.files.length
+  · simp [Program.file, trimProg, List.getD, List.getElem?_map, List.getElem?_zipIdx, List.getElem?_eq_getElem hf]
+  · have hf' : p.files.length ≤ f := Nat.le_of_not_lt hf
+    rw [file_of_ge p hf']
+    have : (trimProg p cfg).files.length ≤ f := by simpa [trimProg] using hf'
+    rw [file_of_ge _ this]
+    simp [trimFile, sweepFile, renFile, emptyFile]
+
+theorem incTarget_trim (p : Program) (cfg : Cfg) (f i g : Nat) (hg : p.incTarget f i = some g)
+    (hm : Node.inc f i ∈ (markAST p cfg).marks) :
+    (trimProg p cfg).incTarget f (newIdx (keepFlags p (markAST p cfg).marks f) i) = some g := by
+  have hlt := incTarget_lt p hg
+  have hk : (keepFlags p (markAST p cfg).marks f).getD i false = true := by
+    unfold keepFlags
+    rw [zipIdx_map_getD _ _ _ hlt]
+    simp [keepInc, hm]
+  unfold Program.incTarget at hg ⊢
+  rw [file_trimProg]
+  simp only [trimFile, renFile, sweepFile]
+  unfold newIdx
+  simp only [hk, if_true]
+  unfold keepFlags at hk ⊢
+  rw [filter_zipIdx_get (keepInc p (markAST p cfg).marks f) (p.file f).includes 0 i hk]
+  exact hg
+
+theorem find_filter_map {α : Type} (pred keep : α → Bool) (g : α → α) (hg : ∀ x, pred (g x) = pred x) :
+    ∀ (l : List α) (s : α), l.find? pred = some s → keep s = true → ((l.filter keep).map g).find? pred = some (g s) := by
+  intro l
+  induction l with
+  | nil => intro s h; simp at h
+  | cons x xs ih =>
+    intro s h hk
+    by_cases hp : pred x = true
+    · simp only [List.find?_cons, hp] at h
+      cases h
+      simp [hk, hg, hp]
+    · have hp' : pred x = false := by simpa using hp
+      simp only [List.find?_cons, hp'] at h
+      by_cases hkx : keep x = true
+      · simp only [List.filter_cons, hkx, if_true, List.map_cons, List.find?_cons, hg, hp']
+        exact ih s h hk
+      · have : keep x = false := by simpa using hkx
+        simp only [List.filter_cons, this, Bool.false_eq_true, if_false]
+        exact ih s h hk
+
+theorem find_map_pres {α : Type} (pred : α → Bool) (g : α → α) (hg : ∀ x, pred (g x) = pred x) :
+    ∀ (l : List α), (l.map g).find? pred = (l.find? pred).map g := by
+  intro l
+  induction l with
+  | nil => rfl
+  | cons x xs ih =>
+    by_cases hp : pred x = true
+    · simp [hg, hp]
+    · have hp' : pred x = false := by simpa using hp
+      simp [hg, hp', ih]
+
+theorem nameHit_ren (ks : List Bool) (h : TyHdr) (n : Bytes) : nameHit (renHdr ks h) n = nameHit h n := by
+  unfold nameHit renHdr renRef
+  cases h.ref with
+  | none => rfl
+  | some r => rfl
+
+theorem sl_trim (p : Program) (cfg : Cfg) (g : Nat) (k : SLKind) :
+    ((trimProg p cfg).file g).sl k =
+      (((p.file g).sl k).filter (keepSL cfg (markAST p cfg).marks g k)).map
+        (renSL (keepFlags p (markAST p cfg).marks g)) := by
+  rw [file_trimProg]
+  cases k <;> simp [trimFile, renFile, sweepFile, File.sl]
+
+/-- the struct-like branch of declTargets, for one kind -/
+theorem find_sl_trim (p : Program) (cfg : Cfg) (g : Nat) (k : SLKind) (ks : List Bool) (h : TyHdr) (s : StructLike)
+    (hf : ((p.file g).sl k).find? (fun s => nameHit h s.name) = some s)
+    (hm : Node.sl g k s.name ∈ (markAST p cfg).marks) :
+    ∃ s', (((trimProg p cfg).file g).sl k).find? (fun s => nameHit (renHdr ks h) s.name) = some s' ∧ s'.name = s.name := by
+  rw [sl_trim]
+  refine ⟨renSL (keepFlags p (markAST p cfg).marks g) s, ?_, rfl⟩
+  have := find_filter_map (fun s => nameHit h s.name) (keepSL cfg (markAST p cfg).marks g k)
+    (renSL (keepFlags p (markAST p cfg).marks g)) (fun _ => rfl) _ s hf (by simp [keepSL, hm])
+  simpa [nameHit_ren] using this
+
+theorem find_sl_trim_none (p : Program) (cfg : Cfg) (g : Nat) (k : SLKind) (ks : List Bool) (h : TyHdr)
+    (hf : ((p.file g).sl k).find? (fun s => nameHit h s.name) = none) :
+    (((trimProg p cfg).file g).sl k).find? (fun s => nameHit (renHdr ks h) s.name) = none := by
+  rw [sl_trim, List.find?_eq_none]
+  intro s' hs'
+  obtain ⟨s0, h0, rfl⟩ := List.mem_map.mp hs'
+  have := List.find?_eq_none.mp hf s0 (List.mem_filter.mp h0).1
+  simpa [nameHit_ren, renSL] using this
+
+/-- one struct-like kind of declTargets -/
+theorem slBranch_trim (p : Program) (cfg : Cfg) (base : Nat) (k : SLKind) (ks : List Bool) (h : TyHdr)
+    (hm : ∀ x ∈ (match ((p.file base).sl k).find? (fun s => nameHit h s.name) with
+      | some s => [Node.sl base k s.name] | none => []), x ∈ (markAST p cfg).marks) :
+    (match (((trimProg p cfg).file base).sl k).find? (fun s => nameHit (renHdr ks h) s.name) with
+      | some s => [Node.sl base k s.name] | none => []) =
+    (match ((p.file base).sl k).find? (fun s => nameHit h s.name) with
+      | some s => [Node.sl base k s.name] | none => []) := by
+  cases hf : ((p.file base).sl k).find? (fun s => nameHit h s.name) with
+  | none => simp [find_sl_trim_none p cfg base k ks h hf]
+  | some s =>
+    simp only [hf] at hm
+    obtain ⟨s', h1, h2⟩ := find_sl_trim p cfg base k ks h s hf (hm _ (List.mem_singleton.mpr rfl))
+    simp [h1, h2]
+
+theorem declTargets_trim (p : Program) (cfg : Cfg) (base : Nat) (ks : List Bool) (h : TyHdr)
+    (hm : ∀ x ∈ declTargets p base h, x ∈ (markAST p cfg).marks) :
+    declTargets (trimProg p cfg) base (renHdr ks h) = declTargets p base h := by
+  unfold declTargets at hm ⊢
+  have e1 : (renHdr ks h).isTd = h.isTd := rfl
+  have e2 : (renHdr ks h).cat = h.cat := rfl
+  have e3 : (renHdr ks h).name = h.name := rfl
+  rw [e1, e2, e3]
+  by_cases c0 : h.isTd = true
+  · simp only [c0, if_true]
+    have : ((trimProg p cfg).file base).typedefs =
+        (p.file base).typedefs.map (fun t => { t with ty := renTy (keepFlags p (markAST p cfg).marks base) t.ty }) := by
+      rw [file_trimProg]; simp [trimFile, renFile, sweepFile]
+    rw [this, find_map_pres (fun t : Typedef => t.alias == h.name)
+      (fun t => { t with ty := renTy (keepFlags p (markAST p cfg).marks base) t.ty }) (fun _ => rfl)]
+    cases (p.file base).typedefs.find? (fun t => t.alias == h.name) with
+    | none => rfl
+    | some t => rfl
+  · simp only [c0, Bool.false_eq_true, if_false] at hm ⊢
+    by_cases c1 : h.cat = 13
+    · simp only [c1, if_true] at hm ⊢
+      exact slBranch_trim p cfg base .struct ks h hm
+    · simp only [c1, if_false] at hm ⊢
+      by_cases c2 : h.cat = 15
+      · simp only [c2, if_true] at hm ⊢
+        exact slBranch_trim p cfg base .exception ks h hm
+      · simp only [c2, if_false] at hm ⊢
+        by_cases c3 : h.cat = 14
+        · simp only [c3, if_true] at hm ⊢
+          exact slBranch_trim p cfg base .union ks h hm
+        · simp only [c3, if_false] at hm ⊢
+          by_cases c4 : h.cat = 12
+          · simp only [c4, if_true]
+            have : ((trimProg p cfg).file base).enums = (p.file base).enums := by
+              rw [file_trimProg]; simp [trimFile, renFile, sweepFile]
+            rw [this]
+            simp only [nameHit_ren]
+          · simp only [c4, if_false]
+
+
+theorem declTargets_not_inc (p : Program) (base : Nat) (h : TyHdr) : ∀ x ∈ declTargets p base h, ∀ M, renNode p M x = x := by
+  intro x hx M
+  unfold declTargets at hx
+  split at hx
+  · split at hx
+    · rw [List.mem_singleton.mp hx]; rfl
+    · simp at hx
+  · split at hx
+    · split at hx
+      · rw [List.mem_singleton.mp hx]; rfl
+      · simp at hx
+    · split at hx
+      · split at hx
+        · rw [List.mem_singleton.mp hx]; rfl
+        · simp at hx
+      · split at hx
+        · split at hx
+          · rw [List.mem_singleton.mp hx]; rfl
+          · simp at hx
+        · split at hx
+          · split at hx
+            · rw [List.mem_singleton.mp hx]; rfl
+            · simp at hx
+          · simp at hx
+
+theorem map_id_of {α : Type} (g : α → α) : ∀ (l : List α), (∀ x ∈ l, g x = x) → l.map g = l := by
+  intro l
+  induction l with
+  | nil => intro _; rfl
+  | cons a as ih =>
+    intro h
+    simp only [List.map_cons]
+    rw [h a (List.mem_cons_self), ih (fun x hx => h x (List.mem_cons_of_mem _ hx))]
+
+theorem incTarget_trim_none (p : Program) (cfg : Cfg) (f i : Nat) (hg : p.incTarget f i = none) :
+    (trimProg p cfg).incTarget f (newIdx (keepFlags p (markAST p cfg).marks f) i) = none := by
+  have hge : (p.file f).includes.length ≤ i := by
+    unfold Program.incTarget at hg
+    cases hi : (p.file f).includes[i]? with
+    | none => exact List.getElem?_eq_none_iff.mp hi
+    | some x => simp [hi] at hg
+  have hk : (keepFlags p (markAST p cfg).marks f).getD i false = false := by
+    unfold keepFlags
+    simp [List.getD, List.getElem?_eq_none (by simpa using hge : ((p.file f).includes.zipIdx.map (keepInc p (markAST p cfg).marks f)).length ≤ i)]
+  unfold newIdx
+  simp only [hk, Bool.false_eq_true, if_false]
+  unfold Program.incTarget
+  rw [file_trimProg]
+  simp only [trimFile, renFile, sweepFile]
+  have : ((List.filter (keepInc p (markAST p cfg).marks f) (p.file f).includes.zipIdx).map (·.1)).length ≤ i := by
+    simp only [List.length_map]
+    exact Nat.le_trans (List.length_filter_le _ _) (by simpa using hge)
+  simp [List.getElem?_eq_none this]
+
+theorem selfTargets_trim (p : Program) (cfg : Cfg) (f : Nat) (h : TyHdr)
+    (hm : ∀ x ∈ selfTargets p f h, x ∈ (markAST p cfg).marks) :
+    selfTargets (trimProg p cfg) f (renHdr (keepFlags p (markAST p cfg).marks f) h) =
+      (selfTargets p f h).map (renNode p (markAST p cfg).marks) := by
+  unfold selfTargets at hm ⊢
+  cases hr : h.ref with
+  | none =>
+    have e : (renHdr (keepFlags p (markAST p cfg).marks f) h).ref = none := by simp [renHdr, renRef, hr]
+    simp only [hr] at hm
+    simp only [e]
+    rw [declTargets_trim p cfg f _ h hm, map_id_of _ _ (fun x hx => declTargets_not_inc p f h x hx _)]
+  | some r =>
+    obtain ⟨rn, i⟩ := r
+    have e : (renHdr (keepFlags p (markAST p cfg).marks f) h).ref = some (rn, newIdx (keepFlags p (markAST p cfg).marks f) i) := by
+      simp [renHdr, renRef, hr]
+    simp only [hr] at hm
+    simp only [e]
+    cases hg : p.incTarget f i with
+    | none => simp [incTarget_trim_none p cfg f i hg]
+    | some g =>
+      simp only [hg] at hm
+      rw [incTarget_trim p cfg f i g hg (hm _ (List.mem_cons_self))]
+      simp only [List.map_cons, renNode]
+      rw [declTargets_trim p cfg g _ h (fun x hx => hm x (List.mem_cons_of_mem _ hx)),
+        map_id_of _ _ (fun x hx => declTargets_not_inc p g h x hx _)]
+
+theorem plain_ren (ks : List Bool) (h : TyHdr) : (renHdr ks h).plain = h.plain := rfl
+
+theorem tyTargets_trim (p : Program) (cfg : Cfg) (f : Nat) : ∀ (ty : Ty),
+    (∀ x ∈ tyTargets p f ty, x ∈ (markAST p cfg).marks) →
+    tyTargets (trimProg p cfg) f (renTy (keepFlags p (markAST p cfg).marks f) ty) =
+      (tyTargets p f ty).map (renNode p (markAST p cfg).marks) := by
+  intro ty
+  induction ty with
+  | named h =>
+    intro hm
+    simp only [renTy, tyTargets, plain_ren] at hm ⊢
+    by_cases hp : h.plain = true
+    · simp [hp]
+    · simp only [hp, Bool.false_eq_true, if_false] at hm ⊢
+      exact selfTargets_trim p cfg f h hm
+  | unary h v ih =>
+    intro hm
+    simp only [renTy, tyTargets, plain_ren] at hm ⊢
+    by_cases hp : h.plain = true
+    · simp [hp]
+    · simp only [hp, Bool.false_eq_true, if_false] at hm ⊢
+      rw [List.map_append, ih (fun x hx => hm x (List.mem_append_left _ hx)),
+        selfTargets_trim p cfg f h (fun x hx => hm x (List.mem_append_right _ hx))]
+  | binary h k v ihk ihv =>
+    intro hm
+    simp only [renTy, tyTargets, plain_ren] at hm ⊢
+    by_cases hp : h.plain = true
+    · simp [hp]
+    · simp only [hp, Bool.false_eq_true, if_false] at hm ⊢
+      rw [List.map_append, List.map_append, ihk (fun x hx => hm x (List.mem_append_left _ hx)),
+        ihv (fun x hx => hm x (List.mem_append_right _ (List.mem_append_left _ hx))),
+        selfTargets_trim p cfg f h (fun x hx => hm x (List.mem_append_right _ (List.mem_append_right _ hx)))]
+
+
+/-- every type of every node that survives in an included file names, in the trimmed program, exactly
+the (renumbered) nodes it named before -/
+theorem bindings (p : Program) (cfg : Cfg) (hc : (markAST p cfg).crash = false) (hu : UniqueSvcFn p) (hl : UniqueSL p)
+    (f : Nat) (hr : InclReach p f) :
+    (∀ c ∈ (sweepFile p cfg (effMethods p cfg) (markAST p cfg) f (p.file f)).consts,
+      tyTargets (trimProg p cfg) f (renTy (keepFlags p (markAST p cfg).marks f) c.ty) =
+        (tyTargets p f c.ty).map (renNode p (markAST p cfg).marks)) ∧
+    (∀ t ∈ (sweepFile p cfg (effMethods p cfg) (markAST p cfg) f (p.file f)).typedefs,
+      tyTargets (trimProg p cfg) f (renTy (keepFlags p (markAST p cfg).marks f) t.ty) =
+        (tyTargets p f t.ty).map (renNode p (markAST p cfg).marks)) ∧
+    (∀ k, ∀ s ∈ (sweepFile p cfg (effMethods p cfg) (markAST p cfg) f (p.file f)).sl k, ∀ fd ∈ s.fields,
+      tyTargets (trimProg p cfg) f (renTy (keepFlags p (markAST p cfg).marks f) fd.ty) =
+        (tyTargets p f fd.ty).map (renNode p (markAST p cfg).marks)) ∧
+    (∀ svc ∈ (sweepFile p cfg (effMethods p cfg) (markAST p cfg) f (p.file f)).services, ∀ fn ∈ svc.fns, ∀ ty ∈ fn.types,
+      tyTargets (trimProg p cfg) f (renTy (keepFlags p (markAST p cfg).marks f) ty) =
+        (tyTargets p f ty).map (renNode p (markAST p cfg).marks)) := by
+  obtain ⟨k1, k2, k3, k4⟩ := kept_refs p cfg hc hu hl f hr
+  exact ⟨fun c hcm => tyTargets_trim p cfg f _ (k1 c hcm), fun t ht => tyTargets_trim p cfg f _ (k2 t ht),
+    fun k s hs fd hfd => tyTargets_trim p cfg f _ (k3 k s hs fd hfd),
+    fun svc hs fn hfn ty hty => tyTargets_trim p cfg f _ (k4 svc hs fn hfn ty hty)⟩
+
+
 end Trim
